@@ -396,7 +396,7 @@ class Gen:
     def expr(self, scope, depth=2):
         for _ in range(20):
             g = X.ExprGen(self.r, self.names_for_expr(scope))
-            e = g.tree(self.r.randint(1, depth))
+            e = g.whole(self.r.randint(1, depth))
             e0 = X.strip_par(e)
             if e0[0] == "text" or (e0[0] == "var" and X.to_number(e0[2]) is X.NOVALUE):
                 continue
